@@ -46,7 +46,12 @@ fn for_each_doc(alpha: &[&str], max_len: usize, shard: usize, nshards: usize, mu
 }
 
 fn random_doc(r: &mut Rng, max_len: usize, crlf: bool) -> String {
-    let alpha: &[&str] = if crlf { &["a", "b", " ", "\n", "\r\n", "ß", "ℝ", "💣", "fn", "(", ")", "x1"] } else { &["a", "b", " ", "\n", "ß", "ℝ", "💣", "fn", "(", ")", "x1"] };
+    // every UTF-8 lead-byte class: C2-CF / D0-DF (2 bytes), E0 / E1-EF (3 bytes), F0 / F4 (4 bytes)
+    let alpha: &[&str] = if crlf {
+        &["a", "b", " ", "\n", "\r\n", "ß", "Я", "\u{7b1}", "\u{800}", "ℝ", "\u{ffff}", "💣", "\u{10ffff}", "fn", "(", ")", "x1"]
+    } else {
+        &["a", "b", " ", "\n", "ß", "Я", "\u{7b1}", "\u{800}", "ℝ", "\u{ffff}", "💣", "\u{10ffff}", "fn", "(", ")", "x1"]
+    };
     let n = r.below(max_len.max(1));
     let mut s = String::new();
     while s.len() < n {
@@ -157,11 +162,11 @@ fn run_c14(args: &Args) -> Report {
     let mut rep = Report::new("C14", args.shard);
     let max_len = if args.thorough() { 7 } else { 6 };
     let mut n = 0u64;
-    for_each_doc(&["a", "\n", "ß", "ℝ", "💣"], max_len, args.shard, args.nshards, |d| {
+    for_each_doc(&["a", "\n", "ß", "Я", "ℝ", "💣"], max_len, args.shard, args.nshards, |d| {
         check_c14_doc(&mut rep, d, "exhaustive");
         n += 1;
     });
-    rep.count(&format!("docs[exhaustive len<={max_len} over {{a,LF,2B,3B,4B}}]"), n);
+    rep.count(&format!("docs[exhaustive len<={max_len} over {{a,LF,2B(C3),2B(D0),3B,4B}}]"), n);
     rep.exhaustive = Some(true);
     let mut r = Rng::derive(args.seed, args.shard as u64, 14);
     let t0 = Instant::now();
@@ -216,7 +221,7 @@ fn run_c13(args: &Args) -> Report {
     let mut rep = Report::new("C13", args.shard);
     let max_len = if args.thorough() { 6 } else { 5 };
     let mut n = 0u64;
-    for_each_doc(&["a", "\n", "\r\n", "ß", "ℝ", "💣"], max_len, args.shard, args.nshards, |d| {
+    for_each_doc(&["a", "\n", "\r\n", "Я", "ℝ", "💣"], max_len, args.shard, args.nshards, |d| {
         let model0 = Doc::new(d);
         let positions = model0.all_positions();
         for (i, &s) in positions.iter().enumerate() {
@@ -384,7 +389,7 @@ fn run_c19(args: &Args) -> Report {
     let tags = [HlTag::Function, HlTag::Constructor, HlTag::Module];
     let max_len = if args.thorough() { 6 } else { 5 };
     let mut n = 0u64;
-    for_each_doc(&["a", "b", " ", "\n", "ß", "💣"], max_len, args.shard, args.nshards, |d| {
+    for_each_doc(&["a", " ", "\n", "ß", "Я", "💣"], max_len, args.shard, args.nshards, |d| {
         let mut sets = 0usize;
         for_each_range_set(d, &mut |ranges| {
             let hls: Vec<HlRange> = ranges
@@ -400,7 +405,7 @@ fn run_c19(args: &Args) -> Report {
             n += 1;
         });
     });
-    rep.count(&format!("encoder_cases[exhaustive: docs len<={max_len} over {{a,b,space,LF,2B,4B}} x all sets of disjoint word ranges]"), n);
+    rep.count(&format!("encoder_cases[exhaustive: docs len<={max_len} over {{a,space,LF,2B(C3),2B(D0),4B}} x all sets of disjoint word ranges]"), n);
     rep.exhaustive = Some(true);
 
     // end to end: real highlights of generated programs
